@@ -11,7 +11,7 @@ import os
 from .. import common
 
 PAYLOADS = ["|", "&", ";", "<", ">", "#", "a>b", "a|b", "x &", "<f", ">f", ">>f", "2>&1", ";x", "#c", "a b", "&&", "||", "<<<", "a;b", "1>&2", "a&"]
-DELIVERY = ["$V", "${V}", "$(vh-emit K)", "`vh-emit K`", "glob", "$W-local"]
+DELIVERY = ["$V", "${V}", "$(vh-emit K)", "`vh-emit K`", "glob", "$W-local", "$(printf %s 'P')", "`printf %s 'P'`"]
 
 
 def setup(d):
@@ -41,6 +41,8 @@ def build_cases():
                         c = '$W'
                     elif dl == 'glob':
                         c = 'g%d/*' % k
+                    elif 'printf' in dl:
+                        c = dl.replace("'P'", "'%s'" % p)
                     else:
                         c = dl.replace('K', str(k))
                     if dq:
